@@ -211,7 +211,12 @@ def gen_script(rng, tier):
                 ops.append(['raw', sel, body])
         else:
             ops.append(['crc', rbytes(rng, rng.choice([0, 1, 9, 100]))])
-    return {'ops': ops, 'tag_base': rng.choice([1, 1, 1, 126, 254, 32766, 65534, 2 ** 24 - 40])}
+    sc = {'ops': ops, 'tag_base': rng.choice([1, 1, 1, 126, 254, 32766, 65534, 2 ** 24 - 40])}
+    if rng.random() < 0.3:
+        # a transport configured with its own client id: empty, short, long, arbitrary bytes
+        sc['client_id'] = rng.choice(['', '61', '617070', '62696c6c696e672d66726f6e74656e64', rbytes(rng, rng.randrange(1, 40)),
+                                      ['78', 300]])
+    return sc
 
 
 def exhaustive(tier, shard, shards):
@@ -237,9 +242,11 @@ def exhaustive(tier, shard, shards):
 def shrink(script):
     for s_ in _shrink_ops(script['ops']):
         s_['tag_base'] = script.get('tag_base', 1)
+        if 'client_id' in script:
+            s_['client_id'] = script['client_id']
         yield s_
     if script.get('tag_base', 1) != 1:
-        yield {'ops': script['ops'], 'tag_base': 1}
+        yield dict(script, tag_base=1)
 
 
 def _shrink_ops(ops):
@@ -327,6 +334,14 @@ def run_script(script):
     _SERIAL[0] += 1
     host = 'broker%d' % _SERIAL[0]
     tp = KafkaTransportSink.Builder()
+    if script.get('client_id') is not None:
+        # a transport configured with another client id (CLIENT_ID is a class attribute read through self: a subclass
+        # overrides it); the header must carry that id, whatever its length
+        from scales.sink import SocketTransportSinkProvider
+
+        class ConfiguredKafkaTransport(KafkaTransportSink):
+            CLIENT_ID = bval(script['client_id'])
+        tp = SocketTransportSinkProvider(ConfiguredKafkaTransport)()
     sp = KafkaSerializerSink.Builder()
     sp.next_provider = tp
     sink = sp.CreateSink({SinkProperties.Endpoint: KafkaEndpoint(host, 9092, 0), SinkProperties.Label: 'c15'})
@@ -336,7 +351,7 @@ def run_script(script):
     # a connection that has been in use for a while: the tag pool's counter is further along
     transport._tag_pool._next = script.get('tag_base', 1)
     conn = fakenet.NET.server(host, 9092).conns[0]
-    cid = KafkaTransportSink.CLIENT_ID
+    cid = type(transport).CLIENT_ID
     cid_b = cid if isinstance(cid, bytes) else cid.encode('latin-1')
 
     delivered = []
